@@ -360,7 +360,8 @@ pub fn eval_entry<T: Fl, S>(
     entry: &str,
 ) -> Result<Array2<T>, Fail>
 where
-    S: Interp1DStrategy<OwnedRepr<T>, OwnedRepr<T>, Ix2>,
+    // (Sync: a tree may require it of the interpolator for its batch entry points)
+    S: Interp1DStrategy<OwnedRepr<T>, OwnedRepr<T>, Ix2> + Sync,
 {
     let q = qs.len();
     match entry {
@@ -643,7 +644,8 @@ pub fn call1d<T: Fl, S>(
     call: &str,
 ) -> Result<Array2<T>, Fail>
 where
-    S: Interp1DStrategy<OwnedRepr<T>, OwnedRepr<T>, Ix2>,
+    // (Sync: a tree may require it of the interpolator for its batch entry points)
+    S: Interp1DStrategy<OwnedRepr<T>, OwnedRepr<T>, Ix2> + Sync,
 {
     let q = qs.len();
     assert_eq!(q, qshape.iter().product::<usize>());
